@@ -247,6 +247,14 @@ class FieldCollection(FieldBase):
         for field, value in zip(self.fields, values, strict=False):
             field.label = value
 
+    def __setstate__(self, state: dict[str, Any]) -> None:
+        super().__setstate__(state)
+        if "_fields" in state and "_slices" in state:
+            # pickling and deep-copying give every field an independent array: link
+            # them back to the data of the collection
+            for field, slc in zip(self._fields, self._slices, strict=False):
+                field._data_flat = self._data_full[slc]
+
     def __eq__(self, other):
         """Test fields for equality, ignoring the label."""
         if not isinstance(other, self.__class__):
